@@ -343,8 +343,10 @@ def main(argv):
             c.broken.append("build of the repo working tree failed: " + blog[-800:])
             return c.finish(rule="build failed")
         c.proofs()
+        # only the translator this property's theories depend on (Gen/Src_filepiece.v) is part of its tie
+        c.broken = [b for b in c.broken if not (b.startswith("translator(") and not b.startswith("translator(filepiece)"))]
         if c.tier == "thorough":
-            coqchk(c, ["PP.Props.Properties_C03"])
+            coqchk(c)
         drv, dlog = build_driver("C03")
         vfio = os.path.join(build_dir(), "hx", "libvfio.so")
         wrapper = os.path.join(SCRATCH, "hx_sysio_vfio.sh")
